@@ -219,9 +219,18 @@ def finish(ctx: Ctx, error: str | None = None):
     os.makedirs(ctx.evidence_dir, exist_ok=True)
     with open(os.path.join(ctx.evidence_dir, "%s.json" % ctx.prop), "w") as fh:
         json.dump(ev, fh, indent=1, default=str)
-    if not ctx.quiet:
-        print("%s tier=%s repo=%s obligations=%d discharged=%d known=%d new=%d wall=%.2fs" % (
-            ctx.prop, ctx.tier, ctx.repo_root, len(obs), cov["discharged"], len(listed), len(new), ev["wall_s"]))
-    for l in out:
-        print(l)
+    import sys
+    try:
+        if not ctx.quiet:
+            print("%s tier=%s repo=%s obligations=%d discharged=%d known=%d new=%d wall=%.2fs" % (
+                ctx.prop, ctx.tier, ctx.repo_root, len(obs), cov["discharged"], len(listed), len(new), ev["wall_s"]))
+        for l in out:
+            print(l)
+        sys.stdout.flush()
+    except BrokenPipeError:
+        # reader went away (e.g. `| head -1`): keep the verdict, drop the rest of the text
+        try:
+            sys.stdout = open(os.devnull, "w")
+        except OSError:
+            pass
     return code
